@@ -257,7 +257,7 @@ def DocText (m : Str) : Prop := '"' ∉ m ∧ '\'' ∉ m ∧ ':' ∉ m
 structure WF (b : Block) : Prop where
   name : isIdentifier b.name = true
   tailC : ':' ∉ b.tail
-  tailH : '#' ∉ b.tail
+  tailOk : tailOk b.tail = true
   inl : ∀ m, b.inline = some m → ':' ∉ m
   above : ∀ m ∈ b.above, '"' ∉ m ∧ '\'' ∉ m
   below : match b.below with
@@ -336,9 +336,14 @@ theorem comment_facts {m : Str} (h : '"' ∉ m ∧ '\'' ∉ m) :
     have : allSpace [' '] := by intro c hc; simp at hc; subst hc; decide
     simpa using stripWs_space_left m this
 
+theorem isHeaderLine_comment (m : Str) : isHeaderLine (commentLine m) = false := by
+  unfold isHeaderLine commentLine
+  rw [lstripWs_space _ indent_allSpace, lstripWs_cons _ (by decide)]
+  simp [startsWith]
+
 theorem isStop_comment {m : Str} (h : '"' ∉ m ∧ '\'' ∉ m) : isStop (commentLine m) = false := by
   have := comment_facts h
-  simp [isStop, this.1, this.2.1]
+  simp [isStop, this.1, this.2.1, isHeaderLine_comment]
 
 /-- the inline-comment part of a definition line -/
 def inlPart (b : Block) : Str :=
@@ -367,39 +372,130 @@ theorem def_rest_no_colon {b : Block} (h : WF b) : ':' ∉ b.tail ++ inlPart b :
       · cases e
       · exact h.inl m hi e
 
-theorem def_facts {b : Block} (h : WF b) :
-    containsFieldDef (defLine b) = true ∧ (∀ n, lineDefines (defLine b) n = (b.name == n)) ∧
-    inlineComment (defLine b) = b.doc.inline := by
-  refine ⟨?_, ?_, ?_⟩
-  · rw [defLine_eq]; exact cfd_def indent_allSpace h.name (def_rest_no_colon h)
-  · intro n; rw [defLine_eq]; exact lineDefines_def n indent_allSpace h.name (def_rest_no_colon h)
-  · obtain ⟨_, hnh, _⟩ := ident_not_mem h.name
-    have hpre : '#' ∉ indent ++ b.name ++ ':' :: b.tail := by
-      intro hc
-      simp only [List.mem_append, List.mem_cons] at hc
-      rcases hc with (e | e) | e | e
-      · exact not_mem_indent (by decide) e
-      · exact hnh e
-      · cases e
-      · exact h.tailH e
+/-! ### the inline comment: first `#` outside a string literal -/
+
+theorem tokScan_run {s s' : TokSt} {A : Str} (R : Str) (h : runTok s A = some s') :
+    tokScan s (A ++ R) = tokScan s' R := by
+  induction A generalizing s with
+  | nil => simp [runTok] at h; subst h; rfl
+  | cons c cs ih =>
+    simp only [runTok] at h
+    simp only [List.cons_append, tokScan]
+    cases hs : step s c with
+    | next s1 => rw [hs] at h; exact ih h
+    | comment => rw [hs] at h; cases h
+    | unmodelled => rw [hs] at h; cases h
+
+def identSt : TokSt := ⟨none, [], .ident⟩
+
+theorem step_identCont (c : Char) (h : isIdCont c = true) : step identSt c = .next identSt := by
+  have h1 : c ≠ '#' := by intro e; subst e; revert h; decide
+  have h2 : c ≠ '"' := by intro e; subst e; revert h; decide
+  have h3 : c ≠ '\'' := by intro e; subst e; revert h; decide
+  by_cases ha : c.isAlpha = true
+  · simp [step, identSt, h1, h2, h3, ha]
+  · by_cases hu : c = '_'
+    · subst hu; rfl
+    · have hd : c.isDigit = true := by
+        simp only [isIdCont, Char.isAlphanum, Bool.or_eq_true, decide_eq_true_eq] at h
+        rcases h with (h | h) | h
+        · exact absurd h ha
+        · exact h
+        · exact absurd h hu
+      simp [step, identSt, h1, h2, h3, ha, hu, hd]
+
+theorem runTok_identCont (cs : Str) (h : cs.all isIdCont = true) : runTok identSt cs = some identSt := by
+  induction cs with
+  | nil => rfl
+  | cons c cs ih =>
+    simp only [List.all_cons, Bool.and_eq_true] at h
+    simp only [runTok, step_identCont c h.1]
+    exact ih h.2
+
+theorem runTok_ident {n : Str} (h : isIdentifier n = true) : runTok st0 n = some identSt := by
+  cases n with
+  | nil => simp [isIdentifier] at h
+  | cons c cs =>
+    simp only [isIdentifier, Bool.and_eq_true] at h
+    have h1 : c ≠ '#' := by intro e; subst e; exact absurd h.1 (by decide)
+    have h2 : c ≠ '"' := by intro e; subst e; exact absurd h.1 (by decide)
+    have h3 : c ≠ '\'' := by intro e; subst e; exact absurd h.1 (by decide)
+    have hs : step st0 c = .next identSt := by
+      have := h.1
+      simp only [isIdStart] at this
+      simp [step, st0, identSt, h1, h2, h3, this]
+    simp only [runTok, hs]
+    exact runTok_identCont cs h.2
+
+theorem lstrip_defLine {b : Block} (h : WF b) :
+    lstripWs (defLine b) = b.name ++ (':' :: b.tail) ++ inlPart b := by
+  rw [defLine_eq, List.append_assoc, lstripWs_space _ indent_allSpace]
+  cases hn : b.name with
+  | nil => exact absurd hn (ident_ne_nil h.name)
+  | cons c cs =>
+    have hc : isSpace c = false := (ident_chars h.name c (by simp [hn])).1
+    rw [List.cons_append, lstripWs_cons _ hc]
+    simp [List.append_assoc]
+
+/-- **the inline comment of a definition line is its own comment**, also when the default value
+    contains `#` inside string literals -/
+theorem inline_def {b : Block} (h : WF b) : inlineComment (defLine b) = b.doc.inline := by
+  have hto := h.tailOk
+  unfold tailOk at hto
+  cases hr : runTok ⟨none, [], .ident⟩ (':' :: b.tail) with
+  | none => rw [hr] at hto; cases hto
+  | some s' =>
+    rw [hr] at hto
+    simp only [Bool.and_eq_true, Option.isNone_iff_eq_none, List.isEmpty_iff] at hto
+    obtain ⟨hin, hdep⟩ := hto
+    have hrun : runTok st0 (b.name ++ (':' :: b.tail)) = some s' := by
+      have h1 := runTok_ident h.name
+      have : ∀ (A B : Str) (s t : TokSt), runTok s A = some t → runTok s (A ++ B) = runTok t B := by
+        intro A B
+        induction A with
+        | nil => intro s t ht; simp [runTok] at ht; subst ht; rfl
+        | cons c cs ih =>
+          intro s t ht
+          simp only [runTok] at ht
+          simp only [List.cons_append, runTok]
+          cases hs : step s c with
+          | next s1 => rw [hs] at ht; exact ih s1 t ht
+          | comment => rw [hs] at ht; cases ht
+          | unmodelled => rw [hs] at ht; cases ht
+      rw [this _ _ _ _ h1]; exact hr
+    have htok : inlineTok (defLine b) = tokScan s' (inlPart b) := by
+      unfold inlineTok
+      rw [lstrip_defLine h, tokScan_run _ hrun]
     unfold inlineComment Block.doc
     cases hi : b.inline with
     | none =>
-      have : defLine b = indent ++ b.name ++ ':' :: b.tail := by simp [defLine, hi]
-      rw [this, contains_false_iff.mpr hpre]; rfl
+      have hp : inlPart b = [] := by simp [inlPart, hi]
+      rw [htok, hp]
+      have : tokScan s' [] = .noComment := by simp [tokScan, hin, hdep]
+      rw [this]
+      cases (defLine b).contains '#' <;> rfl
     | some m =>
-      have e1 : defLine b = (indent ++ b.name ++ ':' :: b.tail ++ [' ', ' ']) ++ '#' :: ' ' :: m := by
-        simp [defLine, hi, List.append_assoc]
-      have hpre2 : '#' ∉ indent ++ b.name ++ ':' :: b.tail ++ [' ', ' '] := by
-        intro hc
-        rcases List.mem_append.mp hc with e | e
-        · exact hpre e
-        · simp at e
+      have hp : inlPart b = ' ' :: ' ' :: '#' :: ' ' :: m := by simp [inlPart, hi]
       have hc : (defLine b).contains '#' = true := by
-        rw [List.contains_iff_mem, e1]; simp
-      rw [hc, e1, after_stop _ hpre2]
-      have : allSpace [' '] := by intro c hc; simp at hc; subst hc; decide
-      simpa using stripWs_space_left m this
+        rw [List.contains_iff_mem, defLine_eq, hp]; simp
+      have hsp : step s' ' ' = .next { s' with prev := .other } := by
+        simp [step, hin, isSpace]
+      have hsp2 : step { s' with prev := .other } ' ' = .next { s' with prev := .other } := by
+        simp [step, hin, isSpace]
+      have hh : step { s' with prev := .other } '#' = .comment := by
+        simp [step, hin]
+      have : tokScan s' (' ' :: ' ' :: '#' :: ' ' :: m) = .comment (' ' :: m) := by
+        simp only [tokScan, hsp, hsp2, hh]
+      rw [htok, hp, this, hc]
+      have hs : allSpace [' '] := by intro c hc; simp at hc; subst hc; decide
+      simpa using stripWs_space_left m hs
+
+theorem def_facts {b : Block} (h : WF b) :
+    containsFieldDef (defLine b) = true ∧ (∀ n, lineDefines (defLine b) n = (b.name == n)) ∧
+    inlineComment (defLine b) = b.doc.inline := by
+  refine ⟨?_, ?_, inline_def h⟩
+  · rw [defLine_eq]; exact cfd_def indent_allSpace h.name (def_rest_no_colon h)
+  · intro n; rw [defLine_eq]; exact lineDefines_def n indent_allSpace h.name (def_rest_no_colon h)
 
 theorem isStop_def {b : Block} (h : WF b) : isStop (defLine b) = true := by
   simp [isStop, (def_facts h).1]
